@@ -76,7 +76,31 @@ def run(tier, seed):
     g = Gen(ns, rng)
     n = 500 if tier == "quick" else 30000
     failures, samples, evals, distinct = [], [], 0, set()
+    absolute, scales_ = ["Kelvin", "Rankine", "(Milli*Kelvin)", "(Kilo*Rankine)"], ["Celsius", "Fahrenheit", "(Milli*Celsius)", "(Kilo*Fahrenheit)", "Kelvin", "Rankine"]
     while evals < n and len([f for f in failures if not f["key"].startswith("known:")]) < 4:
+        if rng.random() < 0.04:
+            # temperatures: a value in an absolute unit (K, R) plus or minus a temperature written in any scale is the sum / difference
+            # of the kelvin values, whichever scale the right operand is written in
+            evals += 1
+            A, B1, B2 = rng.choice(absolute), rng.choice(scales_), rng.choice(scales_)
+            x, y = rng.choice([300, 2.5, 1000.0]), rng.choice([5, -40, 20.5, 0])
+            try:
+                a, b1 = x * eval(A, ns), y * eval(B1, ns)
+                b2 = b1.in_unit(eval(B2, ns))
+                k = lambda q: float(q.in_unit(ns["Kelvin"]).magnitude)
+                for opn, f in (("add", lambda p, q: p + q), ("sub", lambda p, q: p - q)):
+                    r1, r2 = f(a, b1), f(a, b2)
+                    want = k(a) + k(b1) if opn == "add" else k(a) - k(b1)
+                    for r in (r1, r2):
+                        got = float(r.in_unit(ns["Kelvin"]).magnitude) if True else None
+                        if abs(got - want) > 1e-6 * max(1.0, abs(want), abs(k(a)), abs(k(b1))):
+                            key = "scale-" + opn
+                            if sum(1 for f_ in failures if f_["key"] == key) < 2:
+                                failures.append({"key": key, "desc": "%s: (%r %s) %s (%r %s written in %s): kelvin value %r, expected %r" % (opn, x, A, "+" if opn == "add" else "-", y, B1, B2, got, want),
+                                                 "args": [A, B1, B2, x, y, opn], "scale": True})
+            except Exception as e:
+                failures.append({"key": "scale-error", "desc": "temperature arithmetic raised %s: %s" % (type(e).__name__, e), "args": [A, B1, B2, x, y, "add"], "scale": True})
+            continue
         ua, ua2 = g.pair()
         op = rng.choice(["add", "sub", "mul", "div", "pow", "eq", "lt"])
         if op in ("add", "sub"):
@@ -115,5 +139,11 @@ def run(tier, seed):
 
 
 def replay_body(f):
+    if f.get("scale"):
+        A, B1, B2, x, y, opn = f["args"]
+        return ("from native.common import namespace\nns = namespace()\na, b1 = %r * eval(%r, ns), %r * eval(%r, ns)\nb2 = b1.in_unit(eval(%r, ns))\n"
+                "k = lambda q: float(q.in_unit(ns['Kelvin']).magnitude)\nop = (lambda p, q: p + q) if %r == 'add' else (lambda p, q: p - q)\n"
+                "want = k(a) + k(b1) if %r == 'add' else k(a) - k(b1)\nbad = [k(op(a, b)) for b in (b1, b2) if abs(k(op(a, b)) - want) > 1e-6 * max(1.0, abs(want), abs(k(a)), abs(k(b1)))]\n"
+                "print(want, bad)\nsys.exit(1 if bad else 0)\n" % (x, A, y, B1, B2, opn, opn))
     return ("from native import oracle\noracle.install()\nfrom native.common import namespace\nns = namespace()\n" + CHECK +
             "bad = c06_check(*%r, ns)\nprint(bad)\nsys.exit(1 if bad else 0)\n" % (f["args"],))
